@@ -872,14 +872,22 @@ def _fold_constants(node):
 
         def _block(self, body):
             out = []
+            spliced = False
             for st in body:
                 r = self.visit(st)
                 if r is None:
                     continue
                 if isinstance(r, list):
                     out.extend(r)
+                    spliced = True
                 else:
                     out.append(r)
+            if spliced:
+                # a branch that was chosen may end in return / raise: what followed the `if` is then unreachable
+                for k, st in enumerate(out):
+                    if isinstance(st, (ast.Return, ast.Raise, ast.Continue, ast.Break)):
+                        out = out[:k + 1]
+                        break
             return out
 
         def visit_If(self, n):
@@ -925,6 +933,62 @@ def _fold_constants(node):
 
 
 def _specialise_new_optional_parameters(trees):
+    for _round in range(3):
+        _specialise_round(trees)
+        _constant_new_fields(trees)
+
+
+def _constant_new_fields(trees):
+    """a private field that the pinned tree does not have, stored exactly once in the whole package -- a constant, in a constructor (typically the
+    default of a new optional parameter that was just substituted) -- is that constant wherever it is read"""
+    import copy
+    import json as _json
+    import pathlib as _pl
+    try:
+        known = set(_json.load(open(_pl.Path(__file__).with_name('signatures.json'))).get('__attributes__', []))
+    except Exception:      # noqa: BLE001
+        return
+    if not known:
+        return
+    stores = {}
+    for t in trees:
+        for c in [x for x in ast.walk(t) if isinstance(x, ast.ClassDef)]:
+            for b in c.body:
+                if not isinstance(b, ast.FunctionDef):
+                    continue
+                for st in ast.walk(b):
+                    tg = st.targets if isinstance(st, ast.Assign) else [st.target] if isinstance(st, (ast.AugAssign, ast.AnnAssign)) else []
+                    for t_ in tg:
+                        for x in ast.walk(t_):
+                            if isinstance(x, ast.Attribute) and isinstance(x.ctx, (ast.Store, ast.Del)):
+                                v = st.value if isinstance(st, ast.Assign) and len(st.targets) == 1 and st.targets[0] is x and b.name == '__init__' \
+                                    and isinstance(x.value, ast.Name) and x.value.id == 'self' else None
+                                stores.setdefault(x.attr, []).append(v)
+        for x in ast.walk(t):
+            if isinstance(x, ast.Delete):
+                for t_ in x.targets:
+                    if isinstance(t_, ast.Attribute):
+                        stores.setdefault(t_.attr, []).append(None)
+    consts = {a: v[0] for a, v in stores.items() if a.startswith('_') and not a.startswith('__') and a not in known and len(v) == 1 and isinstance(v[0], ast.Constant)}
+    # setattr / getattr by name would escape this: give up on a field whose name appears as a string constant
+    strings = {x.value for t in trees for x in ast.walk(t) if isinstance(x, ast.Constant) and isinstance(x.value, str)}
+    consts = {a: v for a, v in consts.items() if a not in strings}
+    if not consts:
+        return
+
+    class T(ast.NodeTransformer):
+        def visit_Attribute(self, n):
+            self.generic_visit(n)
+            if isinstance(n.ctx, ast.Load) and n.attr in consts:
+                return ast.copy_location(copy.deepcopy(consts[n.attr]), n)
+            return n
+    for t in trees:
+        T().visit(t)
+        _fold_constants(t)
+        ast.fix_missing_locations(t)
+
+
+def _specialise_round(trees):
     """A parameter that the pinned tree does not have (sa/signatures.json), that has a constant default and that no call in the package passes,
     is read as that default inside its function, and the function is partially evaluated: existing callers -- the ones the properties speak
     about -- get exactly this code.  (`cancel_matching_events(asset_id=None, include_paused=True, on_cancelled=None)` is analysed as the
@@ -938,6 +1002,29 @@ def _specialise_new_optional_parameters(trees):
         return
     passed_kw = set()
     pos_counts = {}
+    # positional defaults of every definition, by function name (constructors under the class name): a trailing argument that is the very
+    # constant the parameter defaults to passes nothing (`Event(t, i, a, e, message, None)` after `random_weight` became None in the caller)
+    defs_by_name = {}
+    for t in trees:
+        for c in t.body:
+            fns = [(c.name, b) for b in c.body if isinstance(b, ast.FunctionDef)] if isinstance(c, ast.ClassDef) else ([(None, c)] if isinstance(c, ast.FunctionDef) else [])
+            for cn, b in fns:
+                skip = 1 if (cn and b.args.args and b.args.args[0].arg in ('self', 'cls')) else 0
+                ps = b.args.args[skip:]
+                dfl = [None] * (len(ps) - len(b.args.defaults)) + list(b.args.defaults) if len(b.args.defaults) <= len(ps) else [None] * len(ps)
+                defs_by_name.setdefault(b.name, []).append(dfl)
+                if b.name == '__init__' and cn:
+                    defs_by_name.setdefault(cn, []).append(dfl)
+
+    def effective_args(call, nm):
+        args = list(call.args)
+        while args and isinstance(args[-1], ast.Constant) and nm in defs_by_name:
+            k = len(args) - 1
+            if all(k < len(dfl) and isinstance(dfl[k], ast.Constant) and dfl[k].value == args[-1].value and type(dfl[k].value) is type(args[-1].value) for dfl in defs_by_name[nm]):
+                args.pop()
+            else:
+                break
+        return args
     for t in trees:
         for x in ast.walk(t):
             if isinstance(x, ast.Call):
@@ -948,7 +1035,7 @@ def _specialise_new_optional_parameters(trees):
                         passed_kw.add('**')
                 nm = x.func.attr if isinstance(x.func, ast.Attribute) else x.func.id if isinstance(x.func, ast.Name) else None
                 if nm:
-                    npos = len(x.args) + (100 if any(isinstance(a, ast.Starred) for a in x.args) else 0)
+                    npos = len(effective_args(x, nm)) + (100 if any(isinstance(a, ast.Starred) for a in x.args) else 0)
                     pos_counts[nm] = max(pos_counts.get(nm, 0), npos)
     if '**' in passed_kw:
         pass        # a **kwargs call somewhere: keyword names are unknown there; such calls forward to the same-named parameter and stay neutral
@@ -961,6 +1048,7 @@ def _specialise_new_optional_parameters(trees):
         defaults.update({a.arg: d for a, d in zip(fn.args.kwonlyargs, fn.args.kw_defaults) if d is not None})
         is_method = bool(fn.args.args) and fn.args.args[0].arg in ('self', 'cls')
         bind = {}
+        drop_only = set()          # parameters that became ordinary locals (`if p is None: p = E` with p == None)
         for idx, a in enumerate(fn.args.args + fn.args.kwonlyargs):
             d_ = defaults.get(a.arg)
             literal = isinstance(d_, ast.Constant) or (isinstance(d_, ast.UnaryOp) and isinstance(d_.operand, ast.Constant)) or \
@@ -974,11 +1062,37 @@ def _specialise_new_optional_parameters(trees):
                 callee_names = [fn.name] + ([ctor_name] if ctor_name else [])
                 if any(pos_counts.get(nm, 0) > pos for nm in callee_names):
                     continue
-            if any(isinstance(x, ast.Name) and x.id == a.arg and isinstance(x.ctx, (ast.Store, ast.Del)) for x in ast.walk(fn)):
+            stores_ = [x for x in ast.walk(fn) if isinstance(x, ast.Name) and x.id == a.arg and isinstance(x.ctx, (ast.Store, ast.Del))]
+            if stores_:
+                # `if p is None: p = <expr>` (the usual way of giving a None default its real value): with p == None that is `p = <expr>`
+                done_ = False
+                if len(stores_) == 1 and isinstance(d_, ast.Constant) and d_.value is None:
+                    for k_, st_ in enumerate(fn.body):
+                        if isinstance(st_, ast.If) and not st_.orelse and len(st_.body) == 1 and isinstance(st_.body[0], ast.Assign) and st_.body[0].targets[0] is stores_[0] \
+                                and isinstance(st_.test, ast.Compare) and len(st_.test.ops) == 1 and isinstance(st_.test.ops[0], (ast.Is, ast.Eq)) \
+                                and isinstance(st_.test.left, ast.Name) and st_.test.left.id == a.arg and isinstance(st_.test.comparators[0], ast.Constant) \
+                                and st_.test.comparators[0].value is None and not any(isinstance(x, ast.Name) and x.id == a.arg for x in ast.walk(st_.body[0].value)):
+                            # reads of p before this statement see None
+                            class PutNone(ast.NodeTransformer):
+                                def visit_Name(self_, x):
+                                    if x.id == a.arg and isinstance(x.ctx, ast.Load):
+                                        return ast.copy_location(ast.Constant(None), x)
+                                    return x
+                            head_ = ast.Module(body=[PutNone().visit(b_) for b_ in fn.body[:k_]], type_ignores=[])
+                            _fold_constants(head_)
+                            fn.body[:k_] = head_.body
+                            k_ = len(head_.body)
+                            fn.body[k_] = st_.body[0]
+                            drop_only.add(a.arg)
+                            done_ = True
+                            break
+                if not done_:
+                    continue
                 continue
             bind[a.arg] = defaults[a.arg]
-        if not bind:
+        if not bind and not drop_only:
             return
+        bind_all = set(bind) | drop_only
 
         class Put(ast.NodeTransformer):
             def visit_Name(self_, x):
@@ -999,10 +1113,10 @@ def _specialise_new_optional_parameters(trees):
         nd = len(fn.args.defaults)
         pos = fn.args.args
         dflt = [None] * (len(pos) - nd) + list(fn.args.defaults)
-        keep = [(a_, d_) for a_, d_ in zip(pos, dflt) if a_.arg not in bind]
+        keep = [(a_, d_) for a_, d_ in zip(pos, dflt) if a_.arg not in bind_all]
         fn.args.args = [a_ for a_, _ in keep]
         fn.args.defaults = [d_ for _, d_ in keep if d_ is not None]
-        kw_keep = [(a_, d_) for a_, d_ in zip(fn.args.kwonlyargs, fn.args.kw_defaults) if a_.arg not in bind]
+        kw_keep = [(a_, d_) for a_, d_ in zip(fn.args.kwonlyargs, fn.args.kw_defaults) if a_.arg not in bind_all]
         fn.args.kwonlyargs = [a_ for a_, _ in kw_keep]
         fn.args.kw_defaults = [d_ for _, d_ in kw_keep]
     for t in trees:
@@ -1049,7 +1163,7 @@ def _specialise_new_optional_parameters(trees):
             def visit_Call(self_, n):
                 self_.generic_visit(n)
                 nm = n.func.attr if isinstance(n.func, ast.Attribute) else n.func.id if isinstance(n.func, ast.Name) else None
-                if nm not in helpers or n.keywords or not any(isinstance(a, ast.Constant) for a in n.args) or not all(simple(a) for a in n.args):
+                if nm not in helpers or n.keywords or not all(simple(a) for a in n.args):
                     return n
                 cn, static, ps, expr = helpers[nm]
                 if static:
